@@ -351,6 +351,13 @@ fn crash(w: &mut World, n: usize, keep: u64) -> VResult {
         let mut hi = rec.hi.clone();
         hi.union_with(&own);
         w.nodes[n].hi = hi;
+        // The record stays in the log of the new session; what "the replica showed when the record
+        // was written" is from now on what the *recovering* replica shows after re-applying it (a
+        // clean-up-on replica may have deleted marks here that the first session still had - those
+        // deletions are in this session's log, just before or after this record).
+        let mut rec = rec;
+        rec.dump_after = doc_dump(&doc);
+        rec.missing = has_missing(&doc);
         w.mon.shadow[n].durable.push(rec);
         // what the recovering replica emits (an echo of the record, plus clean-up deletions)
         let uid = w.collect_emission(n, false)?;
